@@ -15,6 +15,49 @@ Lemma manage_status_canary : forall st ann u active failed paused reason,
   else None.
 Proof. intros. unfold manage_status, status_canary_nodes. destruct failed, active; reflexivity. Qed.
 
+(** a selection that comes up short is reported: the reconcile plans its writes AND returns an error *)
+Lemma short_selection_error : forall sn pl e uptodate current rq cspec rep nb,
+  eds_sync sn = Ok pl -> es_obj sn = Some e -> is_defaulted e = true ->
+  last_such (rs_up_to_date e) (rs_of_eds e (es_rss sn)) = Some uptodate ->
+  select_current (e_annots e) (st_canary (e_strategy e))
+                 (last_such (fun r => N.eqb (r_name r) (es_active (e_status e))) (rs_of_eds e (es_rss sn)))
+                 uptodate (es_now sn) = (current, rq) ->
+  st_canary (e_strategy e) = Some cspec ->
+  canary_failed_rs (r_status uptodate) = false -> N.eqb (r_name current) (r_name uptodate) = false ->
+  ca_replicas cspec = Some rep -> resolve_iop rep (es_desired (e_status e)) = Some nb ->
+  nb <> zlen (status_canary_nodes (e_status e)) ->
+  snd (select_nodes (r_tmpl uptodate) (ca_antiaffinity cspec) nb (canary_candidate_nodes sn cspec)
+                    (eds_pods sn e) (status_canary_nodes (e_status e))) = false ->
+  ep_error pl = true.
+Proof.
+  intros sn pl e uptodate current rq cspec rep nb H Ho Hd Hu Hs Hcs Hf Hne Hr Hn Hnb Hshort.
+  unfold eds_sync in H. rewrite Ho, Hd in H. cbn [negb] in H.
+  destruct (validate (e_strategy e)) as [[]|k|k]; try discriminate.
+  rewrite Hu, Hs in H.
+  match type of H with (if ?b then _ else _) = _ => destruct b end; [inversion H; reflexivity|].
+  match type of H with match ?u with _ => _ end = _ => destruct u as [upl|k|k] eqn:Eui end; try discriminate.
+  inversion H; subst pl; cbn [ep_error]. clear H.
+  unfold update_instance in Eui. rewrite Hcs in Eui.
+  destruct (canary_paused (e_annots e) (Some (r_status uptodate))) as [paused reason].
+  rewrite Hf, Hne in Eui. cbn [orb negb] in Eui. rewrite Hr, Hn in Eui.
+  rewrite manage_status_canary in Eui. cbn [es_canary cs_nodes] in Eui.
+  assert (Eprev : status_canary_nodes (with_eds_conds (base_status e current
+             (fold_left (fun acc r => acc + rs_current (r_status r)) (rs_of_eds e (es_rss sn)) 0)
+             (fold_left (fun acc r => acc + rs_ready (r_status r)) (rs_of_eds e (es_rss sn)) 0)
+             (fold_left (fun acc r => acc + rs_available (r_status r)) (rs_of_eds e (es_rss sn)) 0))
+             (canary_conditions (es_conds (base_status e current
+             (fold_left (fun acc r => acc + rs_current (r_status r)) (rs_of_eds e (es_rss sn)) 0)
+             (fold_left (fun acc r => acc + rs_ready (r_status r)) (rs_of_eds e (es_rss sn)) 0)
+             (fold_left (fun acc r => acc + rs_available (r_status r)) (rs_of_eds e (es_rss sn)) 0))) (es_now sn) false paused reason))
+           = status_canary_nodes (e_status e)) by reflexivity.
+  rewrite Eprev in Eui.
+  apply Z.eqb_neq in Hnb. rewrite Hnb in Eui.
+  destruct (select_nodes _ _ _ _ _ _) as [sel enough]. cbn [snd] in Hshort. subst enough.
+  unfold with_error in Eui.
+  match type of Eui with match ?f with _ => _ end = _ => destruct f end; try discriminate.
+  inversion Eui. reflexivity.
+Qed.
+
 (** Where the written list comes from: either the list read, unchanged, or a fresh [select_nodes]
     over the nodes matching the canary node selector, for the resolved number of replicas. *)
 Theorem sync_canary_nodes : forall sn pl st' c',
@@ -29,8 +72,9 @@ Theorem sync_canary_nodes : forall sn pl st' c',
     exists rep nb, ca_replicas cspec = Some rep /\ resolve_iop rep (es_desired (e_status e)) = Some nb /\
       ((nb = zlen prev /\ cs_nodes c' = prev) \/
        (nb <> zlen prev /\
+        exists enough,
         select_nodes (r_tmpl uptodate) (ca_antiaffinity cspec) nb (canary_candidate_nodes sn cspec)
-                     (eds_pods sn e) prev = (cs_nodes c', true)))).
+                     (eds_pods sn e) prev = (cs_nodes c', enough) /\ (enough = false -> ep_error pl = true)))).
 Proof.
   intros sn pl st' c' H Hin Hc.
   destruct (written_status_is_result _ _ _ H Hin) as [e [uptodate [current [rq [Ho [Hd [Hu [Hs [h [ann' [ws Hres]]]]]]]]]]].
@@ -48,13 +92,17 @@ Proof.
       { rewrite Hst3. reflexivity. }
       rewrite Hprev in Hcases.
       repeat split; auto.
-      * destruct Hcases as [[_ ->] | [_ [sel [_ ->]]]]; [rewrite Hst3 in Hc | unfold with_canary_nodes in Hc; cbn in Hc; rewrite Hst3 in Hc];
+      * destruct Hcases as [[_ ->] | [_ [sel [en [_ ->]]]]]; [rewrite Hst3 in Hc | unfold with_canary_nodes in Hc; cbn in Hc; rewrite Hst3 in Hc];
           inversion Hc; reflexivity.
       * exists rep, nb. repeat split; auto.
-        destruct Hcases as [[Hnb ->] | [Hnb [sel [Hsel ->]]]].
+        destruct Hcases as [[Hnb ->] | [Hnb [sel [en [Hsel ->]]]]].
         -- left. split; [assumption|]. rewrite Hst3 in Hc. inversion Hc; reflexivity.
         -- right. split; [assumption|]. unfold with_canary_nodes in Hc; cbn in Hc; rewrite Hst3 in Hc.
-           inversion Hc; subst; cbn. exact Hsel.
+           inversion Hc; subst; cbn. exists en. split; [exact Hsel|]. intros ->.
+           assert (Hne : N.eqb (r_name current) (r_name uptodate) = false).
+           { unfold active in Ea. rewrite Hf in Ea. cbn [orb] in Ea. apply negb_true_iff in Ea. exact Ea. }
+           eapply short_selection_error with (e := e) (uptodate := uptodate) (current := current); try eassumption.
+           rewrite Hsel. reflexivity.
     + exfalso. destruct (Hinact Ea) as [-> _]. unfold st3 in Hc. rewrite manage_status_canary in Hc.
       rewrite Ea in Hc. destruct failed; discriminate.
 Qed.
@@ -71,7 +119,7 @@ Proof.
   intros sn pl st' c' H Hin Hc Hnd.
   destruct (sync_canary_nodes _ _ _ _ H Hin Hc) as [e [Ho [[_ Hsame] | [u [cspec [_ [_ [_ [_ [rep [nb [_ [_ Hcases]]]]]]]]]]]]].
   - specialize (Hnd e Ho). unfold status_canary_nodes in Hnd. rewrite Hsame in Hnd. exact Hnd.
-  - destruct Hcases as [[_ ->] | [_ Hsel]]; [apply Hnd; assumption|].
+  - destruct Hcases as [[_ ->] | [_ [en [Hsel _]]]]; [apply Hnd; assumption|].
     replace (cs_nodes c') with (fst (select_nodes (r_tmpl u) (ca_antiaffinity cspec) nb (canary_candidate_nodes sn cspec)
                                                   (eds_pods sn e) (status_canary_nodes (e_status e)))) by (rewrite Hsel; reflexivity).
     apply select_nodup. apply Hnd; assumption.
@@ -87,21 +135,22 @@ Theorem sync_nodes_valid_at_selection : forall sn pl st' c',
     st_canary (e_strategy e) = Some cspec /\ cs_rs c' = r_name u /\
     ca_replicas cspec = Some rep /\ resolve_iop rep (es_desired (e_status e)) = Some nb /\
     (forall nn, In nn (cs_nodes c') -> valid_canary_node sn cspec u nn) /\
-    nb <= zlen (cs_nodes c') /\
+    (nb <= zlen (cs_nodes c') \/ ep_error pl = true) /\
     (zlen (cs_nodes c') <= nb \/ incl (cs_nodes c') (status_canary_nodes (e_status e))).
 Proof.
   intros sn pl st' c' H Hin Hc Hnd e Ho Hchg.
   destruct (sync_canary_nodes _ _ _ _ H Hin Hc) as [e' [Ho' [[_ Hsame] | [u [cspec [Hcs [Hrs [_ [_ [rep [nb [Hr [Hn Hcases]]]]]]]]]]]]];
     rewrite Ho in Ho'; inversion Ho'; subst e'.
   - exfalso. apply Hchg. unfold status_canary_nodes. rewrite Hsame. reflexivity.
-  - destruct Hcases as [[_ Heq] | [_ Hsel]]; [contradiction|].
+  - destruct Hcases as [[_ Heq] | [_ [en [Hsel Herr]]]]; [contradiction|].
     specialize (Hnd e Ho).
     set (prev := status_canary_nodes (e_status e)) in *.
     assert (Hf : cs_nodes c' = fst (select_nodes (r_tmpl u) (ca_antiaffinity cspec) nb (canary_candidate_nodes sn cspec)
                                                  (eds_pods sn e) prev)) by (rewrite Hsel; reflexivity).
     exists u, cspec, rep, nb. repeat split; auto.
     + intros nn Hnn. rewrite Hf in Hnn. eapply select_all_valid; eassumption.
-    + assert (Hs : snd (select_nodes (r_tmpl u) (ca_antiaffinity cspec) nb (canary_candidate_nodes sn cspec) (eds_pods sn e) prev) = true)
+    + destruct en; [left | right; apply Herr; reflexivity].
+      assert (Hs : snd (select_nodes (r_tmpl u) (ca_antiaffinity cspec) nb (canary_candidate_nodes sn cspec) (eds_pods sn e) prev) = true)
         by (rewrite Hsel; reflexivity).
       destruct (Z_lt_le_dec (zlen (cs_nodes c')) nb) as [Hlt|Hge]; [|assumption].
       exfalso. rewrite Hf in Hlt. apply select_short_iff in Hlt. congruence.
